@@ -20,8 +20,9 @@ PROPS_ENTRY = {'models': ['Model/Queue.v', 'Model/SoundSpec.v', 'Model/Sound.v']
                  'byte by byte by the correspondence)',
                  'set_up: the exclusion "the device claims OK for more items than fit the 4096-byte receive buffer" (is_fatal hypotheses of '
                  'C20_snd_set_up): the driver\'s slice bound then panics (C20_snd_items_overflow); a conforming device cannot produce such an answer',
-                 'VirtIOSound::new succeeding (queue creation and handshake are C06 / C08): the model starts from the state new() leaves; the event queue / '
-                 'latest_notification is OwningQueue::poll (C19) and is tied here by monitor 2056 only'],
+                 'VirtIOSound::new succeeding (queue creation and handshake are C06 / C08): the model starts from the state new() leaves; the three configuration reads '
+                 'of new are modelled at Transport-call level (snd_read_config, kind 2039); the event queue / latest_notification is modelled in Model/Sound.v and '
+                 'proved under C19 (C19_snd_*, kinds 1980 / 1981, monitor 1982); monitor 2056 stays'],
  'trusted_extra': ['reference sound device harness/src/scen/c20_snd.rs (SndDev): walks chains and decodes control and TX messages through device addresses with '
                    'its own decoder written from VirtIO 1.2 section 5.14; answers OK or any status; completes TX messages in order (blocking) or in PRNG '
                    'order (token interface); event-queue completions via scen/c19.rs ODev',
@@ -107,4 +108,18 @@ SPEC_ENTRY = {'title': 'Command/response drivers encode requests per spec and ch
   ('C20_snd_set_up_nonvacuous', 'Proofs/SoundProofs.v', 'set_up_nonvacuous', None),
   ('C20_snd_pcm_blocking_nonvacuous', 'Proofs/SoundProofs.v', 'xfer_blocking_nonvacuous', None),
   ('C20_snd_nb_nonvacuous', 'Proofs/SoundProofs.v', 'nb_nonvacuous', None),
-  ('C20_snd_state_rule_nonvacuous', 'Proofs/SoundProofs.v', 'state_rule_nonvacuous', None)]}
+  ('C20_snd_state_rule_nonvacuous', 'Proofs/SoundProofs.v', 'state_rule_nonvacuous', None),
+  # ---- configuration counters and the stream queries against the raw answer (SoundProofs section 8)
+  ('C20_snd_config_layout', 'Proofs/SoundProofs.v', 'snd_read_config_spec',
+   'VirtIOSound::new reads jacks / streams / chmaps with three 4-byte reads at offsets 0, 4, 8 of struct virtio_snd_config (5.14.4), in this order; a refused read ends the constructor with the transport\'s error and the later fields are not read'),
+  ('C20_snd_config_counters', 'Proofs/SoundProofs.v', 'snd_config_counters',
+   'jacks() / streams() / chmaps() are the three little-endian fields of the configuration bytes the device exposed at construction, for every content and every feature word'),
+  ('C20_snd_config_counters_nonvacuous', 'Proofs/SoundProofs.v', 'snd_config_counters_nonvacuous', None),
+  ('C20_snd_pcm_answer_any_content', 'Proofs/SoundProofs.v', 'parse_all_any_content',
+   'whatever bytes the device puts behind an OK status: the driver reads back, item by item, the fields at the positions of struct virtio_snd_pcm_info (5.14.6.6.2), for every item count that fits the receive buffer'),
+  ('C20_snd_query_of_answer', 'Proofs/SoundProofs.v', 'snd_get_of_answer',
+   'output_streams / input_streams / rates_supported / formats_supported / channel_range_supported / features_supported after set_up stored the answer rsp: exactly spec_stream_query of rsp (stream ids by direction byte in ascending order; rates / formats bitmaps; channels_min, channels_max; features of item stream_id), InvalidParam for a stream the device did not report; for EVERY content of the answer'),
+  ('C20_snd_first_query', 'Proofs/SoundProofs.v', 'snd_first_query',
+   'the first query, which runs set_up: for every answer of the device to the three info queries - PCM_INFO answered OK: the result is the specification\'s reading of THAT answer; answered with anything else: IoError and the driver stays un-set-up'),
+  ('C20_snd_queries_nonvacuous', 'Proofs/SoundProofs.v', 'snd_queries_nonvacuous',
+   'an answer no conforming device would send (direction 7, channels_min 200 > channels_max 3): the queries return exactly its fields')]}
